@@ -344,6 +344,15 @@ theorem midwrite_truncate_breaks :
   decide
 
 
+/-- Outside `lookup_sound`'s conclusion (documented window, see `getFile_read_sound`):
+`GetFile` hits; then the data file is removed (trimmer) and another writer has re-created
+its first byte when the caller opens the returned name: the caller reads a strict prefix. -/
+theorem getfile_window_breaks :
+    let s := exRun (.spawn exId 17 :: List.replicate 8 (.step 0))
+    let s' := run exH exStored 1 s [.unlink (.D exOut), .spawn exId 18, .step 1, .step 1, .step 1]
+    getFile s.fs exId = some exOut ∧ readFile s'.fs exOut = some [7] := by
+  decide +kernel
+
 /-! the property theorems instantiated (their hypotheses are satisfiable) -/
 example := lookup_sound exWorld 1 inv_init exCrash (id := exId) (by decide)
 example := inv_run exWorld 1 inv_init exCrash
